@@ -528,7 +528,7 @@ ASSUMPTIONS = [
 def run(ctx: Ctx) -> Report:
     rsclient.build()
     nshards = 16 if ctx.quick else 64
-    nhist = ctx.pick(110, 560)
+    nhist = ctx.pick(110, 420)
     max_ops = 120
     reports = ctx.pmap(_shard, [(i, ctx.seed, ctx.tier, nhist, max_ops) for i in range(nshards)])
     rep = ctx.merge_reports(reports)
